@@ -75,6 +75,22 @@ class Extractor:
             return ("cmp", op, self.term(e.func.value, depth + 1), self.term(e.args[0], depth + 1))
         raise Unknown(f"condition `{u(e)}`")
 
+    def _if_defined(self, ds, depth):
+        """A name with two definitions chosen by one test: `x = a; if c: x = b` or `if c: x = b else: x = a` -> ite(c, b, a)."""
+        if len(ds) != 2 or not all(d.kind == "assign" and d.value is not None and getattr(d, "stmt", None) is not None for d in ds):
+            return None
+        from .astutil import parent_map
+        pm = getattr(self, "_pm", None)
+        if pm is None:
+            pm = self._pm = parent_map(self.rd.func)
+        d1, d2 = sorted(ds, key=lambda d: d.line)
+        p1, p2 = pm.get(d1.stmt), pm.get(d2.stmt)
+        if isinstance(p2, ast.If) and any(d2.stmt is s_ for s_ in p2.body) and not p2.orelse and p1 is pm.get(p2):
+            return ("ite", self.cond(p2.test, depth + 1), self.term(d2.value, depth + 1), self.term(d1.value, depth + 1))
+        if isinstance(p1, ast.If) and p1 is p2 and any(d1.stmt is s_ for s_ in p1.body) and any(d2.stmt is s_ for s_ in p1.orelse):
+            return ("ite", self.cond(p1.test, depth + 1), self.term(d1.value, depth + 1), self.term(d2.value, depth + 1))
+        return None
+
     def term(self, e: ast.AST, depth: int = 0):
         if depth > self.max_depth:
             raise Unknown("depth")
@@ -106,6 +122,9 @@ class Extractor:
                     self.rd.use_defs[id(tl)] = frozenset(prev)
                     a, b = self.term(tl, depth + 1), self.term(st.value, depth + 1)
                     return ("add" if isinstance(st.op, ast.Add) else "sub", a, b)
+            ite = self._if_defined(ds, depth)
+            if ite is not None:
+                return ite
             raise Unknown(f"`{e.id}` has {len(ds)} reaching definitions ({sorted(d.kind for d in ds)})")
         if isinstance(e, ast.UnaryOp) and isinstance(e.op, ast.USub):
             return ("neg", self.term(e.operand, depth + 1))
@@ -209,6 +228,8 @@ def ev(t, env: Dict[str, int]) -> int:
         return min(ev(t[1], env), ev(t[2], env))
     if k == "zero_if":
         return 0 if evc(t[2], env) else ev(t[1], env)
+    if k == "ite":
+        return ev(t[2], env) if evc(t[1], env) else ev(t[3], env)
     raise Unknown(str(k))
 
 
@@ -240,6 +261,8 @@ def show(t) -> str:
         return f"{k}({show(t[1])}, {show(t[2])})"
     if k == "zero_if":
         return f"[0 if {showc(t[2])} else {show(t[1])}]"
+    if k == "ite":
+        return f"[{show(t[2])} if {showc(t[1])} else {show(t[3])}]"
     return str(t)
 
 
